@@ -71,6 +71,14 @@ type c20RealGraph struct {
 var _ c20GraphView = (*c20RealGraph)(nil)
 
 func c20NewRealGraph(chain *c20Chain) (*c20RealGraph, error) {
+	return c20NewRealGraphCfg(chain, nil)
+}
+
+// c20NewRealGraphCfg is c20NewRealGraph with a hook to adjust the Builder's
+// configuration (strict zombie pruning in c20_zombie_test.go).
+func c20NewRealGraphCfg(chain *c20Chain,
+	tweak func(*graph.Config)) (*c20RealGraph, error) {
+
 	dir, err := os.MkdirTemp("", "c20e2e")
 	if err != nil {
 		return nil, err
@@ -128,7 +136,7 @@ func c20NewRealGraph(chain *c20Chain) (*c20RealGraph, error) {
 		return nil, err
 	}
 
-	b, err := graph.NewBuilder(&graph.Config{
+	bcfg := &graph.Config{
 		SelfNode: g.self,
 		Graph:    cg,
 		Chain:    chain,
@@ -146,7 +154,11 @@ func c20NewRealGraph(chain *c20Chain) (*c20RealGraph, error) {
 		IsAlias: func(lnwire.ShortChannelID) bool {
 			return false
 		},
-	})
+	}
+	if tweak != nil {
+		tweak(bcfg)
+	}
+	b, err := graph.NewBuilder(bcfg)
 	if err != nil {
 		g.shutdown()
 		return nil, err
